@@ -4,7 +4,7 @@ import binascii, os, sys
 sys.path.insert(0, os.path.dirname(__file__))
 from _common import main
 
-BOUND = 'PIN lengths 4..12 x PAN lengths 13..19 x 3 digit patterns; supplied fills {1, 2^63, 2^64-1, random} and none; TDES double/triple length and AES-128/192/256 keys; FIPS known-answer vectors for the cipher assumption'
+BOUND = 'sequences of 3DES/AES keys sharing leading bytes in one process; random value passed positionally; PIN lengths 4..12 x PAN lengths 13..19 x 3 digit patterns; supplied fills {1, 2^63, 2^64-1, random} and none; TDES double/triple length and AES-128/192/256 keys; FIPS known-answer vectors for the cipher assumption'
 
 
 def ref_iso0(pin, pan):
@@ -28,7 +28,7 @@ def ref_encrypt(alg, key, data):
 
 
 def oracle(inp):
-    if not isinstance(inp, dict) or inp.get('kind') not in ('kat','iso0','iso4','enc'):
+    if not isinstance(inp, dict) or inp.get('kind') not in ('kat','iso0','iso4','enc','enc-seq'):
         return None          # unknown input kind (model of another property's unit)
     import warnings
     warnings.simplefilter('ignore')
@@ -39,6 +39,13 @@ def oracle(inp):
             return 'kat: DES known-answer vector fails'
         if ref_encrypt('AES', bytes(range(16)), bytes.fromhex('00112233445566778899aabbccddeeff')).hex() != '69c4e0d86a7b0430d8cdb78070b4c55a':
             return 'kat: AES-128 FIPS-197 vector fails'
+        return None
+    if kind == 'enc-seq':
+        # several keys in one process, sharing leading bytes (K1K2 vs K1K2K3, AES-128 key vs AES-256 key with that prefix)
+        for alg, key in inp['keys']:
+            r = oracle({'kind': 'enc', 'alg': alg, 'key': key, 'pin': inp['pin'], 'pan': inp['pan']})
+            if r:
+                return 'key-history: after keys %s: %s' % ([k[:8] + '..' for _, k in inp['keys']], r)
         return None
     pin, pan = inp['pin'], inp.get('pan', '1111222233334444')
     if not (pin.isdigit() and 4 <= len(pin) <= 12 and pan.isdigit() and 13 <= len(pan) <= 19 and pin.isascii() and pan.isascii()):
@@ -52,7 +59,7 @@ def oracle(inp):
             return 'format0-decode: from_bytes of the standard block for pin %r pan %r gives %r' % (pin, pan, back)
     if kind in ('iso4', 'enc'):
         rnd = inp.get('rnd')
-        o = pb.Iso4PinBlock(pin, random_value=rnd) if rnd else pb.Iso4PinBlock(pin)
+        o = (pb.Iso4PinBlock(pin, rnd) if inp.get('positional') else pb.Iso4PinBlock(pin, random_value=rnd)) if rnd else pb.Iso4PinBlock(pin)
         b = o.to_bytes()
         if b[:8] != ref_iso4_head(pin) or len(b) != 16:
             return 'format4: Iso4PinBlock(%r).to_bytes()=%s, expected head %s' % (pin, b.hex(), ref_iso4_head(pin).hex())
@@ -87,6 +94,15 @@ def oracle(inp):
 
 def cases(tier, rng):
     yield {'kind': 'kat'}
+    hx = lambda n: bytes(rng.getrandbits(8) for _ in range(n)).hex()
+    for _ in range(3):
+        k1, k2, k3, tail = hx(8), hx(8), hx(8), hx(16)
+        yield {'kind': 'enc-seq', 'pin': '123456', 'pan': '5555444433331111',
+               'keys': [['TripleDES', k1 + k2], ['TripleDES', k1 + k2 + k3], ['TripleDES', k1 + k2 + k1], ['TripleDES', k1 + k2], ['TripleDES', k1 + k3 + k2],
+                        ['AES', k1 + k2], ['AES', k1 + k2 + k3], ['AES', k1 + k2 + tail], ['AES', k1 + k2]]}
+    for L in (4, 7, 12):
+        yield {'kind': 'iso4', 'pin': '9' * L, 'rnd': 0x1122334455667788, 'positional': True}
+        yield {'kind': 'iso4', 'pin': '0' * L, 'rnd': 1, 'positional': True}
     for L in range(4, 13):
         for P in range(13, 20):
             for pat in range(3):
